@@ -1742,6 +1742,9 @@ func c16R5(e *c16Env) {
 	}
 	var backs []ssa.Instruction
 	for _, s := range vw.Sends() {
+		if len(CallsTo(s.Parent(), "builtin:recover")) > 0 {
+			continue // the panic handler's hand-back is checked separately below
+		}
 		if b, isB := c14ConstBool(s.X); isB && b && isStatus(s.Chan) {
 			backs = append(backs, s)
 		}
